@@ -845,6 +845,48 @@ for k in fails[:5]:
                   {"correspondence": "Model.Frame.mk_frame / get_timetrace / is_complete", "rows": rows,
                    "impl": {"accepted": ok, "ask": [t, r], "got": got, "complete": comp}}, failing_input_found=False)
 
+# ---- large arrays (more elements than an 8-bit index can number) with transmitters and receivers stored in DIFFERENT
+#      integer types (a few transmitters as uint8, all receivers as int64), sub-apertures by mask / slice / reversed slice:
+#      every kept timetrace keeps its samples and its two PHYSICAL elements; also under a small NumPy print threshold (global
+#      print state) with two different index arrays on the same probe
+for t_ in range(4 if Q else 30):
+    ne_ = int(rng.choice([300, 520, 1100])) if t_ % 2 == 0 else int(rng.integers(20, 60))
+    probe_ = arim.Probe.make_matrix_probe(ne_, 0.25e-3, 1, np.nan, 5e6)
+    ntt_ = 40
+    tx_ = rng.integers(0, min(ne_, 250), ntt_)
+    rx_ = rng.integers(0, ne_, ntt_)
+    _, uniq_ = np.unique(np.stack([tx_, rx_]), axis=1, return_index=True)
+    tx_, rx_ = tx_[np.sort(uniq_)], rx_[np.sort(uniq_)]
+    tt_ = rng.standard_normal((len(tx_), 6))
+    frame_ = arim.Frame(tt_.copy(), arim.Time(0.0, 1e-7, 6), tx_.astype(np.uint8), rx_.astype(np.int64), probe_, None)
+    drop_a, drop_b = int(rng.integers(1, ne_ - 1)), int(rng.integers(1, ne_ - 1))
+    idxs_ = []
+    for drop_ in (drop_a, drop_b):
+        m_ = np.ones(ne_, bool)
+        m_[drop_] = False
+        idxs_.append(("mask without element %d" % drop_, m_, np.flatnonzero(m_)))
+    idxs_.append(("reversed slice", slice(None, None, -1), np.arange(ne_)[::-1]))
+    import contextlib as _ctx
+    with (np.printoptions(threshold=5) if t_ % 2 == 1 else _ctx.nullcontext()):
+        subs_ = [(nm_, frame_.subframe_from_probe_elements(ix_), E_) for nm_, ix_, E_ in idxs_]
+    evaluations += len(subs_)
+    chk.count(large_array_subaperture=f"{ne_} elements, tx uint8 / rx int64" + (", print threshold 5" if t_ % 2 == 1 else ""))
+    for nm_, sf_, E_ in subs_:
+        keep_ = np.isin(tx_, E_) & np.isin(rx_, E_)
+        ok_ = sf_.numtimetraces == int(keep_.sum()) and sf_.probe.numelements == len(E_)
+        if ok_:
+            new_tx, new_rx = np.asarray(sf_.tx).astype(np.int64), np.asarray(sf_.rx).astype(np.int64)
+            ok_ = bool(np.all((new_tx >= 0) & (new_tx < len(E_)) & (new_rx >= 0) & (new_rx < len(E_)))) \
+                and np.array_equal(E_[new_tx], tx_[keep_]) and np.array_equal(E_[new_rx], rx_[keep_]) \
+                and np.array_equal(np.asarray(sf_.timetraces), tt_[keep_]) \
+                and np.array_equal(np.asarray(sf_.probe.locations.coords), np.asarray(probe_.locations.coords)[E_])
+        if not ok_:
+            chk.violation("large-array-subaperture", f"subframe_from_probe_elements ({nm_}) on a {ne_}-element array with tx stored as uint8 and rx as int64: "
+                          "a kept timetrace does not keep its samples and its two physical elements",
+                          dict(numelements=ne_, index=nm_, tx=tx_, rx=rx_, new_tx=np.asarray(sf_.tx), new_rx=np.asarray(sf_.rx),
+                               print_threshold=5 if t_ % 2 == 1 else "default"), failing_input_found=True)
+            break
+
 # ---- the glue model of the public functions (Model files added later, see manifest text) tied to the library on every run:
 #      inputs generated here, the library run on them, the model evaluated on the same inputs by vm_compute inside coqc
 import ties.tie_C15 as _tie_glue  # noqa: E402
